@@ -89,6 +89,23 @@ func timeWorldEval(info *types.Info, cond ast.Expr, age int64) (bool, bool) {
 					return ev(x.Args[0])
 				}
 			}
+		case *ast.Ident:
+			// a local defined once (`maxLifetime := time.Duration(cfg.MaxConnLifetimeSec) * time.Second`) stands for its definition
+			if v, isVar := info.Uses[x].(*types.Var); isVar && !v.IsField() && v.Pkg() != nil && v.Parent() != v.Pkg().Scope() && timeWorldProg != nil {
+				if pk := timeWorldProg.ByPath[v.Pkg().Path()]; pk != nil && pk.TypesInfo == info {
+					var def ast.Expr
+					timeWorldProg.AllFuncs([]*packagesPkg{pk}, func(fi *FuncInfo) {
+						if def == nil && fi.Decl.Body != nil {
+							if d, n := localDef(info, fi.Decl.Body, v); n == 1 && d != nil {
+								def = d
+							}
+						}
+					})
+					if def != nil {
+						return ev(def)
+					}
+				}
+			}
 		case *ast.SelectorExpr:
 			if fv := fieldOf(info, x); fv != nil {
 				if containsFold(objName(fv), "lastuse") {
